@@ -103,6 +103,16 @@ type wrapAdder struct {
 
 func (w wrapAdder) Add(s string) { w.cf.Add("(" + w.ctor + " " + s + ")") }
 
+// tooLarge: a case the evaluator should not be given (documents parsed from the larger real SBOMs
+// print to megabytes); the oracle still runs on it.
+func tooLarge(rep *Report, c string) bool {
+	if len(c) > 250000 {
+		rep.Count("seam_skipped:case-over-250kB")
+		return true
+	}
+	return false
+}
+
 const xlateImports = "Model.Base Model.Graph Model.Spdx Model.Cdx Corr.CheckSpdx Corr.CheckCdx Corr.CheckXlate"
 
 func newXlateCases() (*CasesFile, caseAdder, caseAdder) {
@@ -132,16 +142,18 @@ func (c *CasesFile) Write(base string) []string {
 func (c *CasesFile) writeShard(path string, items []string) {
 	var b strings.Builder
 	fmt.Fprintf(&b, "(* written by /verif/harness/cmd/drive; not committed *)\nFrom Verif Require Import %s.\nOpen Scope string_scope.\nOpen Scope Z_scope.\nOpen Scope list_scope.\n\n", c.Imports)
-	const chunk = 30
+	// chunks of at most 30 cases and about 200 kB: coqc's parser overflows its stack on very large terms
 	var names []string
-	for i := 0; i < len(items); i += chunk {
-		j := i + chunk
-		if j > len(items) {
-			j = len(items)
+	for i := 0; i < len(items); {
+		j, size := i, 0
+		for j < len(items) && j-i < 30 && (j == i || size+len(items[j]) < 200000) {
+			size += len(items[j])
+			j++
 		}
-		name := fmt.Sprintf("chunk%d", i/chunk)
+		name := fmt.Sprintf("chunk%d", len(names))
 		names = append(names, name)
 		fmt.Fprintf(&b, "Definition %s : list (%s) := [\n  %s\n].\n\n", name, c.Type, strings.Join(items[i:j], ";\n  "))
+		i = j
 	}
 	if len(names) == 0 {
 		fmt.Fprintf(&b, "Definition cases : list (%s) := [].\n", c.Type)
